@@ -250,13 +250,26 @@ impl Engine for C06 {
         };
         for j in 0..children {
             let envs: Vec<(String, String)> = match j {
-                0 => vec![("LANG".into(), "C".into()), ("TZ".into(), "UTC".into())],
+                0 => vec![
+                    ("LANG".into(), "C".into()),
+                    ("TZ".into(), "UTC".into()),
+                    ("USER".into(), "alice".into()),
+                    ("NO_COLOR".into(), "1".into()),
+                    ("SVGDX_DEBUG".into(), "1".into()),
+                ],
                 1 => vec![
                     ("LANG".into(), "de_DE.UTF-8".into()),
                     ("TZ".into(), "Asia/Tokyo".into()),
                     ("HOME".into(), "/nonexistent".into()),
                 ],
-                _ => vec![("LC_ALL".into(), "tr_TR.UTF-8".into()), ("COLUMNS".into(), "40".into())],
+                _ => vec![
+                    ("LC_ALL".into(), "tr_TR.UTF-8".into()),
+                    ("COLUMNS".into(), "40".into()),
+                    ("USER".into(), "bob".into()),
+                    ("TERM".into(), "dumb".into()),
+                    ("SOURCE_DATE_EPOCH".into(), "1".into()),
+                    ("RUST_LOG".into(), "trace".into()),
+                ],
             };
             incs.push(Inc {
                 kind: if j % 2 == 0 { "child-file" } else { "child-stdin" }.into(),
